@@ -81,299 +81,47 @@ mod u4 {
         assert!(tag.is_pointer() == want);
     }
 
-    // ------------------------------------------------------------- stack helpers (bounded stack)
-    const N: usize = 4;
-    /// symbolic stack of symbolic length <= N: one allocation of N symbolic scalars,
-    /// truncated to n (Value is Copy: truncate only sets the length).  Returns the
-    /// vector, the N symbolic values (for comparison without cloning) and n.
-    fn any_stack() -> (Vec<Value>, [Value; N], usize) {
-        let vals = [any_scalar(), any_scalar(), any_scalar(), any_scalar()];
-        let n: usize = kani::any();
-        kani::assume(n <= N);
-        let mut v = Vec::with_capacity(N + 4);
-        v.extend_from_slice(&vals);
-        v.truncate(n);
-        (v, vals, n)
-    }
-    fn same_prefix(a: &Vec<Value>, b: &[Value; N], n: usize) -> bool {
-        let mut i = 0;
-        while i < N {
-            if i < n && a[i] != b[i] {
-                return false;
-            }
-            i += 1;
-        }
-        true
-    }
-    struct Snap {
-        pc: u32,
-        base: usize,
-        calls: usize,
-        heap: usize,
-        gray: usize,
-        err: bool,
-        done: bool,
-        host: Option<u16>,
-        i1: usize,
-        i2: usize,
-        heap_size: usize,
-    }
-    fn snap(t: &VmGreenThread) -> Snap {
-        Snap {
-            pc: t.pc.0,
-            base: t.stack_base,
-            calls: t.call_stack.len(),
-            heap: t.heap_list.len(),
-            gray: t.gray_stack.len(),
-            err: t.error.is_some(),
-            done: t.done,
-            host: t.pending_host_func,
-            i1: t.string_op_index1,
-            i2: t.string_op_index2,
-            heap_size: t.heap_size,
-        }
-    }
-    fn frame_ok(a: &Snap, t: &VmGreenThread) -> bool {
-        let b = snap(t);
-        a.pc == b.pc && a.base == b.base && a.calls == b.calls && a.heap == b.heap && a.gray == b.gray
-            && a.err == b.err && a.done == b.done && a.host == b.host && a.i1 == b.i1 && a.i2 == b.i2
-            && a.heap_size == b.heap_size
-    }
-
+    // (stack/register helpers and the pure stack/jump/constant arms are proved for stacks of ANY
+    //  length by the Verus units u4v_stack and u4a_ctrl; what remains here needs real heap objects
+    //  or checks the real `impl Into<Value>` plumbing on concrete shapes)
     #[kani::proof]
-    #[kani::unwind(7)]
-    fn stack_load_offset_or_top() {
-        let (stack, old, n) = any_stack();
-        let base: usize = kani::any();
-        kani::assume(base <= N + 2);
-        let arg: u16 = kani::any();
-        kani::assume(reg_ok(n, base, arg));
-        let mut t = mk_thread_with(stack, base, vec![], vec![]);
-        let s = snap(&t);
-        let r = t.load_offset_or_top(arg);
-        if reg_top(arg) {
-            assert!(r == old[n - 1], "Top: returns the top value");
-            assert!(t.value_stack.len() == n - 1, "Top: pops exactly one");
-            assert!(same_prefix(&t.value_stack, &old, n - 1), "Top: rest unchanged");
-        } else {
-            assert!(r == old[reg_index(base, arg)], "Offset: returns the addressed local");
-            assert!(t.value_stack.len() == n && same_prefix(&t.value_stack, &old, n), "Offset: stack unchanged");
-        }
-        assert!(frame_ok(&s, &t), "nothing else changes");
-        kani::cover!(reg_top(arg), "top reachable");
-        kani::cover!(!reg_top(arg) && reg_off(arg) < 0, "negative offset reachable");
-        std::mem::forget(t);
-    }
-
-    #[kani::proof]
-    #[kani::unwind(7)]
-    fn stack_store_offset_or_top() {
-        let (stack, old, n) = any_stack();
-        let base: usize = kani::any();
-        kani::assume(base <= N + 2);
-        let arg: u16 = kani::any();
-        kani::assume(reg_store_ok(n, base, arg));
-        let v = any_scalar();
-        let mut t = mk_thread_with(stack, base, vec![], vec![]);
-        let s = snap(&t);
-        t.store_offset_or_top(arg, v);
-        if reg_top(arg) {
-            assert!(t.value_stack.len() == n + 1, "Top: pushes exactly one");
-            assert!(t.value_stack[n] == v, "Top: pushed value is v");
-            assert!(same_prefix(&t.value_stack, &old, n), "Top: rest unchanged");
-        } else {
-            let k = reg_index(base, arg);
-            assert!(t.value_stack.len() == n, "Offset: length unchanged");
-            assert!(t.value_stack[k] == v, "Offset: slot updated");
-            let mut i = 0;
-            while i < N {
-                if i < n && i != k {
-                    assert!(t.value_stack[i] == old[i], "Offset: other slots unchanged");
-                }
-                i += 1;
-            }
-        }
-        assert!(frame_ok(&s, &t), "nothing else changes");
-        kani::cover!(reg_top(arg), "top reachable");
-        kani::cover!(!reg_top(arg), "offset reachable");
-        std::mem::forget(t);
-    }
-
-    #[kani::proof]
-    #[kani::unwind(7)]
     fn stack_typed_store_is_from() {
-        // the typed stores of the Verus stand-ins are store_offset_or_top ∘ From
-        let (stack, _old, n) = any_stack();
-        let mut t = mk_thread_with(stack, 0, vec![], vec![]);
+        // the typed stores of the Verus stand-ins are store_offset_or_top / push composed with From
+        let mut t = mk_thread_with(vec![any_scalar()], 0, vec![], vec![]);
         let x: i64 = kani::any();
         t.store_offset_or_top(TOP, x);
-        assert!(t.value_stack[n] == Value::from(x));
+        assert!(t.value_stack[1] == Value::from(x));
         let b: bool = kani::any();
         t.store_offset_or_top(TOP, b);
-        assert!(t.value_stack[n + 1] == Value::from(b));
+        assert!(t.value_stack[2] == Value::from(b));
+        let f = f64::from_bits(kani::any());
+        t.push(f);
+        assert!(t.value_stack[3] == Value::from(f));
+        t.store_offset(0, x);
+        assert!(t.value_stack[0] == Value::from(x));
+        kani::cover!(true, "reachable");
         std::mem::forget(t);
     }
 
     #[kani::proof]
-    #[kani::unwind(7)]
-    fn stack_push_pop_top() {
-        let (stack, old, n) = any_stack();
-        let mut t = mk_thread_with(stack, 0, vec![], vec![]);
-        let s = snap(&t);
-        let v = any_scalar();
-        t.push(v);
-        assert!(t.value_stack.len() == n + 1 && t.top() == v);
-        t.set_top(any_scalar());
-        assert!(t.value_stack.len() == n + 1);
-        t.set_top(v);
-        let r = t.pop();
-        assert!(r == v && t.value_stack.len() == n && same_prefix(&t.value_stack, &old, n));
-        assert!(frame_ok(&s, &t));
-        std::mem::forget(t);
-    }
-
-    #[kani::proof]
-    #[kani::unwind(7)]
-    #[kani::stub(std::fmt::format, stub_format)]
-    fn stack_load_store_offset() {
-        let (stack, old, n) = any_stack();
-        let base: usize = kani::any();
-        kani::assume(base <= N + 2);
-        let off: i16 = kani::any();
-        let idx = base as i128 + off as i128;
-        kani::assume(0 <= idx && idx < n as i128);
-        let mut t = mk_thread_with(stack, base, vec![], vec![]);
-        assert!(t.load_offset(off) == old[idx as usize]);
-        let v = any_scalar();
-        t.store_offset(off, v);
-        assert!(t.value_stack.len() == n && t.value_stack[idx as usize] == v);
-        kani::cover!(off < 0, "negative offset");
-        std::mem::forget(t);
-    }
-
-    // ------------------------------------------------------------- simple arms
-    #[kani::proof]
-    #[kani::unwind(7)]
-    fn arm_pop_duplicate() {
-        let (stack, old, n) = any_stack();
-        kani::assume(n >= 1);
-        let mut t = mk_thread_with(stack, 0, vec![], vec![]);
-        let s = snap(&t);
-        assert!(t.arm_Duplicate());
-        assert!(t.value_stack.len() == n + 1 && t.value_stack[n] == old[n - 1]);
-        assert!(t.arm_Pop());
-        assert!(t.value_stack.len() == n && same_prefix(&t.value_stack, &old, n));
-        assert!(frame_ok(&s, &t));
-        std::mem::forget(t);
-    }
-
-    #[kani::proof]
-    #[kani::unwind(7)]
-    #[kani::stub(std::fmt::format, stub_format)]
-    fn arm_load_store_offset() {
-        let (stack, old, n) = any_stack();
-        let base: usize = kani::any();
-        kani::assume(base <= N + 2);
-        let off: i16 = kani::any();
-        let idx = base as i128 + off as i128;
-        kani::assume(0 <= idx && idx < n as i128);
-        let mut t = mk_thread_with(stack, base, vec![7], vec![]);
-        let s = snap(&t);
-        assert!(t.arm_LoadOffset(off));
-        assert!(t.value_stack.len() == n + 1 && t.value_stack[n] == old[idx as usize]);
-        // StoreOffset pops the value and writes it to the local
-        let v = any_scalar();
-        t.set_top(v);
-        assert!(t.arm_StoreOffset(off));
-        assert!(t.value_stack.len() == n && t.value_stack[idx as usize] == v);
-        assert!(t.arm_StoreOffsetImm(off, 0));
-        assert!(t.value_stack.len() == n && t.value_stack[idx as usize] == Value::from(7i64));
-        assert!(frame_ok(&s, &t));
-        std::mem::forget(t);
-    }
-
-    #[kani::proof]
-    #[kani::unwind(7)]
-    fn arm_push_constants() {
-        let (stack, old, n) = any_stack();
-        let k: i64 = kani::any();
-        let fbits: u64 = kani::any();
-        let mut t = mk_thread_with(stack, 0, vec![k], vec![f64::from_bits(fbits)]);
-        let s = snap(&t);
-        assert!(t.arm_PushInt(0));
-        assert!(t.value_stack.len() == n + 1 && t.value_stack[n] == Value::from(k));
-        assert!(t.arm_PushFloat(0));
-        assert!(t.value_stack.len() == n + 2 && t.value_stack[n + 1] == Value(fbits, ValueTag::Float));
-        let b: bool = kani::any();
-        assert!(t.arm_PushBool(b));
-        assert!(t.value_stack.len() == n + 3 && t.value_stack[n + 2] == Value::from(b));
-        let a: u32 = kani::any();
-        assert!(t.arm_PushAddr(ProgramCounter(a)));
-        assert!(t.value_stack.len() == n + 4 && t.value_stack[n + 3] == Value::from(ProgramCounter(a)));
-        assert!(same_prefix(&t.value_stack, &old, n));
-        assert!(frame_ok(&s, &t));
-        std::mem::forget(t);
-    }
-
-    #[kani::proof]
-    #[kani::unwind(7)]
+    #[kani::unwind(5)]
     fn arm_push_nil() {
-        let (stack, old, n) = any_stack();
-        let k: u16 = kani::any();
-        kani::assume(k <= 3);
-        let mut t = mk_thread_with(stack, 0, vec![], vec![]);
-        assert!(t.arm_PushNil(k));
-        assert!(t.value_stack.len() == n + k as usize);
-        assert!(same_prefix(&t.value_stack, &old, n));
-        std::mem::forget(t);
-    }
-
-    #[kani::proof]
-    #[kani::unwind(7)]
-    fn arm_not_equalbool() {
-        let a: bool = kani::any();
-        let b: bool = kani::any();
-        let mut t = mk_thread_with(vec![Value::from(a), Value::from(b)], 0, vec![], vec![]);
-        assert!(t.arm_EqualBool(TOP, TOP, TOP));
-        assert!(t.value_stack.len() == 1 && t.value_stack[0] == Value::from(a == b));
-        assert!(t.arm_Not(TOP, TOP));
-        assert!(t.value_stack.len() == 1 && t.value_stack[0] == Value::from(!(a == b)));
-        std::mem::forget(t);
-    }
-
-    #[kani::proof]
-    #[kani::unwind(7)]
-    fn arm_jumps() {
-        let c: bool = kani::any();
-        let target: u32 = kani::any();
-        let pc0: u32 = kani::any();
-        let mut t = mk_thread_with(vec![Value::from(c), Value::from(c)], 0, vec![], vec![]);
-        t.pc = ProgramCounter(pc0);
-        assert!(t.arm_JumpIf(ProgramCounter(target)));
+        let marker = any_scalar();
+        let mut t = mk_thread_with(vec![marker], 0, vec![], vec![]);
+        assert!(t.arm_PushNil(0));
         assert!(t.value_stack.len() == 1);
-        assert!(t.pc.0 == if c { target } else { pc0 }, "JumpIf jumps exactly when the popped bool is true");
-        t.pc = ProgramCounter(pc0);
-        assert!(t.arm_JumpIfFalse(ProgramCounter(target)));
-        assert!(t.value_stack.len() == 0);
-        assert!(t.pc.0 == if !c { target } else { pc0 }, "JumpIfFalse jumps exactly when the popped bool is false");
-        assert!(t.arm_Jump(ProgramCounter(target)));
-        assert!(t.pc.0 == target);
+        assert!(t.arm_PushNil(3));
+        assert!(t.value_stack.len() == 4 && t.value_stack[0] == marker);
         std::mem::forget(t);
     }
 
     // ------------------------------------------------------------- calls
-    #[kani::proof]
-    #[kani::unwind(8)]
-    fn arm_call_return() {
+    // (Call/Return/ReturnVoid are also proved for arbitrary stacks in u4a_ctrl; this is the
+    //  end-to-end composition on the real helpers, one harness per concrete shape)
+    fn arm_call_return(nargs: u32, pre: usize, extra: usize) {
         // caller has `pre` values, pushes nargs arguments, calls; callee leaves `extra`
         // operands plus the return value; Return must restore the caller's stack with the
         // result in place of the arguments, whatever `extra` is.
-        let nargs: u32 = kani::any();
-        kani::assume(nargs <= 2);
-        let pre: usize = kani::any();
-        kani::assume(pre <= 1);
-        let extra: usize = kani::any();
-        kani::assume(extra <= 2);
         let mut stack = Vec::new();
         let marker = any_scalar();
         if pre == 1 {
@@ -414,17 +162,20 @@ mod u4 {
         if pre == 1 {
             assert!(t.value_stack[0] == marker, "caller's operands untouched");
         }
-        kani::cover!(extra == 2 && nargs == 2, "reachable");
+        kani::cover!(true, "reachable");
         std::mem::forget(t);
     }
-
     #[kani::proof]
     #[kani::unwind(8)]
-    fn arm_call_return_void() {
-        let nargs: u32 = kani::any();
-        kani::assume(nargs <= 2);
-        let extra: usize = kani::any();
-        kani::assume(extra <= 2);
+    fn arm_call_return_a() { arm_call_return(0, 0, 0) }
+    #[kani::proof]
+    #[kani::unwind(8)]
+    fn arm_call_return_b() { arm_call_return(2, 1, 2) }
+    #[kani::proof]
+    #[kani::unwind(8)]
+    fn arm_call_return_c() { arm_call_return(1, 1, 0) }
+
+    fn arm_call_return_void(nargs: u32, extra: usize) {
         let marker = any_scalar();
         let mut stack = vec![marker];
         let mut i = 0;
@@ -448,15 +199,18 @@ mod u4 {
         assert!(t.arm_ReturnVoid());
         assert!(t.pc.0 == pc0 && t.stack_base == 0 && t.call_stack.len() == 0);
         assert!(t.value_stack.len() == 1 && t.value_stack[0] == marker, "void return leaves exactly the caller's operands");
+        kani::cover!(true, "reachable");
         std::mem::forget(t);
     }
-
-    // ------------------------------------------------------------- structures
     #[kani::proof]
     #[kani::unwind(8)]
-    fn arm_construct_deconstruct_struct() {
-        let n: u16 = kani::any();
-        kani::assume(n <= 3);
+    fn arm_call_return_void_a() { arm_call_return_void(0, 0) }
+    #[kani::proof]
+    #[kani::unwind(8)]
+    fn arm_call_return_void_b() { arm_call_return_void(2, 2) }
+
+    // ------------------------------------------------------------- structures
+    fn arm_construct_deconstruct_struct(n: u16) {
         let marker = any_scalar();
         let f0 = any_scalar();
         let f1 = any_scalar();
@@ -489,9 +243,18 @@ mod u4 {
         if n >= 2 { assert!(t.value_stack[n as usize - 1] == f1); }
         if n >= 3 { assert!(t.value_stack[n as usize - 2] == f2); }
         assert!(t.value_stack[0] == marker);
-        kani::cover!(n == 3, "reachable");
+        kani::cover!(true, "reachable");
         std::mem::forget(t);
     }
+    #[kani::proof]
+    #[kani::unwind(8)]
+    fn arm_construct_deconstruct_struct_0() { arm_construct_deconstruct_struct(0) }
+    #[kani::proof]
+    #[kani::unwind(8)]
+    fn arm_construct_deconstruct_struct_1() { arm_construct_deconstruct_struct(1) }
+    #[kani::proof]
+    #[kani::unwind(8)]
+    fn arm_construct_deconstruct_struct_3() { arm_construct_deconstruct_struct(3) }
 
     #[kani::proof]
     #[kani::unwind(8)]
@@ -534,15 +297,11 @@ mod u4 {
         std::mem::forget(t);
     }
 
-    #[kani::proof]
-    #[kani::unwind(8)]
-    fn arm_closure_call() {
+    fn arm_closure_call(ncap: u16) {
         // MakeClosure(n): [captures..., addr] -> closure struct {addr, captures...}? (layout from the
         // code: construct_struct(n+1) over the top n+1 values, field 0 must be the address)
         let cap0 = any_scalar();
         let cap1 = any_scalar();
-        let ncap: u16 = kani::any();
-        kani::assume(ncap <= 2);
         let addr: u32 = kani::any();
         let arg = any_scalar();
         let mut t = mk_thread_with(vec![arg], 0, vec![], vec![]);
@@ -561,8 +320,15 @@ mod u4 {
         if ncap >= 1 { assert!(t.value_stack[1] == cap0); }
         if ncap >= 2 { assert!(t.value_stack[2] == cap1); }
         assert!(t.value_stack[0] == arg);
+        kani::cover!(true, "reachable");
         std::mem::forget(t);
     }
+    #[kani::proof]
+    #[kani::unwind(8)]
+    fn arm_closure_call_0() { arm_closure_call(0) }
+    #[kani::proof]
+    #[kani::unwind(8)]
+    fn arm_closure_call_2() { arm_closure_call(2) }
 
     // ------------------------------------------------------------- stop / host / panic
     #[kani::proof]
